@@ -18,8 +18,8 @@ from vf.common import Check, short
 
 X = ('f', 'x')
 XS = ('f', 'xs')
-REF_KINDS = ('direct', 'qbody', 'qdomain', 'qunused', 'nested', 'qplain', 'qfree', 'qfree2')
-ROUTES = ('callbacks', 'ctor', 'but_pattern', 'but_both')
+REF_KINDS = ('direct', 'qbody', 'qdomain', 'qunused', 'nested', 'qplain', 'qfree', 'qfree2', 'call4', 'qcall4')
+ROUTES = ('callbacks', 'ctor', 'but_pattern', 'but_both', 'but_event')
 
 
 def pred_for(kind: str, r, v, w):
@@ -37,6 +37,10 @@ def pred_for(kind: str, r, v, w):
         return ('bin', 'and', ('q', 'forall', v, XS, ('bin', '>', ('var', v), ('lit', 0))), ('bin', '>', X, ('fa', ('var', r), 'x')))
     if kind == 'qfree2':  # same, with the free reference used at the variable's own type (no type clash when r coincides with v)
         return ('bin', 'and', ('q', 'forall', v, XS, ('bin', '>', ('var', v), ('lit', 0))), ('bin', '>', X, ('var', r)))
+    if kind == 'call4':  # the reference is the 4th argument of a variadic call (API-built: the grammar has one-argument calls only)
+        return ('bin', '>', ('call', 'max', X, ('lit', 1), ('lit', 2), ('fa', ('var', r), 'x')), ('lit', 0))
+    if kind == 'qcall4':  # the quantified variable's only use is the 4th argument
+        return ('bin', 'and', ('q', 'forall', v, XS, ('bin', '>', ('call', 'min', X, ('lit', 1), ('lit', 2), ('var', v)), ('lit', 0))), ('bin', '>', X, ('fa', ('var', r), 'x')))
     if kind == 'qplain':
         return ('q', 'forall', v, XS, ('bin', '>', ('var', v), ('lit', 0)))
     raise ValueError(kind)
@@ -76,7 +80,7 @@ def shapes(tier: str):
             sub_r = [c for n in range(0, 3 if thorough else 2) for c in itertools.combinations(range(len(slots)), n)]
             for sa in sub_a:
                 for sr in sub_r:
-                    kinds_list = itertools.product(REF_KINDS if (thorough or len(sr) < 2) else REF_KINDS[:3], repeat=len(sr))
+                    kinds_list = itertools.product(REF_KINDS if len(sr) < 2 else ('direct', 'qbody', 'qdomain', 'qfree2'), repeat=len(sr))
                     for kinds in kinds_list:
                         yield {'scope': scope, 'pattern': pattern, 'pos': pos, 'widths': wc, 'slots': slots, 'alias_slots': sa, 'ref_slots': sr, 'kinds': kinds}
 
@@ -126,6 +130,31 @@ def attempt(spec, route: str) -> Optional[str]:
             HplProperty(scope, pattern)
             return None
         plain = T.absence(T.event('zz', None, None), None)
+        if route == 'but_event':
+            # a disjunction that has already answered its queries, copied with one alternative changed, then used in a property
+            from hpl.ast import HplEventDisjunction
+            done = False
+            for pos in ('behaviour', 'trigger', 'activator', 'terminator'):
+                ev = spec.get(pos)
+                if ev is not None and ev[0] == 'or':
+                    final = props.build_event(ev)
+                    stub = HplEventDisjunction(T.event('stub1', None, None), final.event2)
+                    stub.aliases(), stub.external_references()
+                    HplProperty(T.global_scope([]), T.absence(stub, None)) if not stub.external_references() else None
+                    copy = stub.but(event1=final.event1)
+                    spec2 = dict(spec)
+                    sc = props.build_scope(spec)
+                    pt = props.build_pattern(spec)
+                    if pos in ('behaviour', 'trigger'):
+                        pt = pt.but(**{pos: copy})
+                    else:
+                        sc = sc.but(**{pos: copy})
+                    HplProperty(sc, pt)
+                    done = True
+                    break
+            if not done:
+                HplProperty(scope, pattern)
+            return None
         if route == 'but_pattern':
             base = HplProperty(scope, plain)
             base.but(pattern=pattern)
@@ -209,12 +238,18 @@ def main() -> int:
                  'hpl.ast.events.HplEventDisjunction.__attrs_post_init__/aliases/external_references', 'hpl.ast.expressions.HplQuantifier._check_domain/_check_condition_is_bool/external_references',
                  'hpl.ast.base.HplAstObject.but', 'hpl.parser.PropertyTransformer.hpl_property/event/event_disjunction/quantification')
     items = []
+    two = 0
     for i, sh in enumerate(shapes(ck.tier)):
+        if ck.tier == 'thorough' and len(sh['ref_slots']) == 2:
+            two += 1
+            if (two + ck.seed) % 7:
+                continue  # every 7th shape with two referencing alternatives (they are three quarters of the space and twice as costly)
         if ck.tier == 'thorough':
-            for r in ROUTES[:2] if i % 2 else ROUTES[2:]:
-                items.append((sh, r))
+            items.append((sh, ROUTES[i % 5]))
+            if i % 5 == 0:
+                items.append((sh, ROUTES[(i + 1) % 5]))
         else:
-            items.append((sh, ROUTES[i % 4]))
+            items.append((sh, ROUTES[i % 5]))
     t0 = time.time()
     results = [x for c in par.pmap_chunks(worker, items, 100) for x in c]
     paths = 0
